@@ -264,6 +264,10 @@ func (vr *variableResolver) resolve(ctx *ExecutionContext) (*Value, error) {
 	}
 
 	for idx, part := range vr.parts {
+		// The safe mark belongs to one value: what a step takes out of a safe value
+		// (a field, an item, a method's result) is not safe because its container was
+		isSafe = false
+
 		if idx == 0 {
 			// We're looking up the first part of the variable.
 			// First we're having a look in our private
